@@ -1,5 +1,9 @@
 import PppModel.Auto
 import PppModel.Props.C17
+import PppModel.Props.C01
+import PppModel.Props.C04
+import PppModel.Lemmas.V2Stream
+import PppModel.Lemmas.V1Prefix
 
 /-!
 # C05 — streaming: every proper prefix of an accepted header is reported incomplete
@@ -18,5 +22,162 @@ theorem flags :
     (∀ h, isIncompleteV2 (.ok h) = false) ∧
     (∀ h, (HeaderResult.v1 (.ok h)).isIncomplete = false) ∧ (∀ h, (HeaderResult.v2 (.ok h)).isIncomplete = false) :=
   ⟨fun _ => rfl, fun _ => rfl, fun _ => rfl, fun _ => rfl, fun _ => rfl, fun _ => rfl, fun _ => rfl, fun _ => rfl⟩
+
+/-- **v2.** Every proper prefix of the header of an accepted input is incomplete. -/
+theorem v2_prefix_incomplete {x : B} {h : V2.Header} (hp : V2.parse x = .ok h) (n : Nat)
+    (hn : n < h.header.length) : isIncompleteV2 (V2.parse (x.take n)) = true := by
+  obtain ⟨e, he, hi⟩ := V2.prefix_incomplete hp n hn
+  simp [isIncompleteV2, he, hi]
+
+/-- An accepted v1 input is its header (a well-formed line) followed by the rest. -/
+theorem v1_accepted_shape {x : B} {h : V1.Header} (hp : V1.parseBytes x = .ok h) :
+    ∃ rest, x = h.header ++ rest ∧ h.header.length ≤ 107 ∧ Spec.V1.Line V1.ip6Model h.header h.addresses := by
+  obtain ⟨rest, h1, h2, -, h4⟩ := (C01.bytes_accept_iff_partial x h).mp hp
+  exact ⟨rest, h1, h2, h4⟩
+
+/-- **v1, bytes.** Every proper prefix of an accepted US-ASCII line is incomplete. -/
+theorem v1_bytes_prefix_incomplete {x : B} {h : V1.Header} (hp : V1.parseBytes x = .ok h)
+    (hascii : ∀ c ∈ h.header, c < 0x80) (n : Nat) (hn : n < h.header.length) :
+    isIncompleteV1 (V1.parseBytes (x.take n)) = true := by
+  obtain ⟨rest, hx, hlen, hl⟩ := v1_accepted_shape hp
+  rw [hx]
+  exact V1.Prefix.parseBytes_prefix_isIncomplete V1.ip6Model (fun _ _ h => h) hl hlen hascii rest n hn
+
+/-- **v1, text** (and hence both `FromStr` impls). -/
+theorem v1_str_prefix_incomplete {x : B} {h : V1.Header} (hp : V1.parseStr x = .ok h)
+    (hascii : ∀ c ∈ h.header, c < 0x80) (n : Nat) (hn : n < h.header.length) :
+    isIncompleteV1Str (V1.parseStr (x.take n)) = true := by
+  obtain ⟨rest, hx, hlen, hl⟩ := C01.str_accept_line hp
+  rw [hx]
+  exact V1.Prefix.parseStr_prefix_isIncomplete V1.ip6Model (fun _ _ h => h) hl hlen hascii rest n hn
+
+/-- **auto-detect.** Through `HeaderResult::parse` as well, for headers of either version. -/
+theorem auto_prefix_incomplete {x : B} (n : Nat) :
+    (∀ h, Auto.parse x = .v2 (.ok h) → n < h.header.length → (Auto.parse (x.take n)).isIncomplete = true) ∧
+    (∀ h, Auto.parse x = .v1 (.ok h) → (∀ c ∈ h.header, c < 0x80) → n < h.header.length →
+      (Auto.parse (x.take n)).isIncomplete = true) := by
+  constructor
+  · intro h hp hn
+    have hp2 : V2.parse x = .ok h := (C04.auto_v2_ok_iff x h).mp hp
+    obtain ⟨e, he, hi⟩ := V2.prefix_incomplete hp2 n hn
+    rw [C06.auto_def, he]
+    simp [hi, HeaderResult.isIncomplete, isIncompleteV2]
+  · intro h hp hascii hn
+    have hp1 : V1.parseBytes x = .ok h := ((C04.auto_v1_iff x _).mp hp).2
+    have hinc := v1_bytes_prefix_incomplete hp1 hascii n hn
+    cases n with
+    | zero =>
+      have : Auto.parse (x.take 0) = .v2 (.error (.incomplete 0)) := by
+        rw [List.take_zero]; decide
+      rw [this]; rfl
+    | succ m =>
+      obtain ⟨rest, hx, -, hl⟩ := v1_accepted_shape hp1
+      obtain ⟨h15, h6⟩ := V1.line_prefix hl
+      -- the prefix starts with 'P', so the v2 parser rejects it terminally
+      have hP : ∃ r, x.take (m + 1) = 0x50 :: r := by
+        have e6 : h.header = (V1.PROXY ++ [V1.SP]) ++ h.header.drop 6 := by
+          rw [← h6]; exact (List.take_append_drop 6 _).symm
+        rw [hx, e6]
+        refine ⟨((V1.PROXY.drop 1 ++ [V1.SP]) ++ h.header.drop 6 ++ rest).take m, ?_⟩
+        simp [V1.PROXY, List.take_succ_cons]
+      obtain ⟨r, hr⟩ := hP
+      rw [C06.auto_def, hr, C04.v2_rejects_P r, ← hr]
+      simpa [HeaderResult.isIncomplete, V2.ParseError.isIncomplete] using hinc
+
+/-! ## Histories: however the stream is split into reads -/
+
+/-- A receiver that appends each read to its buffer, re-parses the whole buffer
+and stops at the first result that is not incomplete. `none`: still waiting
+after the last read. -/
+def receive {R : Type} (parse : B → R) (inc : R → Bool) (buf : B) : List B → Option R
+  | [] => none
+  | r :: rs =>
+    if inc (parse (buf ++ r)) then receive parse inc (buf ++ r) rs else some (parse (buf ++ r))
+
+/-- Generic streaming lemma: if every prefix of the stream shorter than `k` is
+incomplete and every prefix of length at least `k` parses to the complete
+result `res`, the receiver ends with `res` however the stream is chunked. -/
+theorem receive_generic {R : Type} (parse : B → R) (inc : R → Bool) (stream : B) (k : Nat) (res : R)
+    (hk : k ≤ stream.length)
+    (hpre : ∀ n, n < k → inc (parse (stream.take n)) = true)
+    (hok : ∀ m, k ≤ m → parse (stream.take m) = res) (hres : inc res = false) :
+    ∀ (reads : List B) (buf : B), buf ++ reads.flatten = stream → buf.length < k →
+      receive parse inc buf reads = some res := by
+  intro reads
+  induction reads with
+  | nil =>
+    intro buf hb hlt
+    simp only [List.flatten_nil, List.append_nil] at hb
+    subst hb; omega
+  | cons r rs ih =>
+    intro buf hb hlt
+    have hb' : (buf ++ r) ++ rs.flatten = stream := by simpa using hb
+    have htake : stream.take (buf ++ r).length = buf ++ r := by
+      rw [← hb']; exact List.take_left' rfl
+    simp only [receive]
+    by_cases hlen : (buf ++ r).length < k
+    · have := hpre _ hlen
+      rw [htake] at this
+      rw [if_pos this]
+      exact ih (buf ++ r) hb' hlen
+    · have := hok (buf ++ r).length (by omega)
+      rw [htake] at this
+      rw [this, hres]
+      simp
+
+/-- **v2 history form** (also `V2.streaming` in Lemmas/V2Stream.lean). -/
+theorem streaming_v2 {x : B} {h : V2.Header} (hp : V2.parse x = .ok h) (payload : B) (reads : List B)
+    (hr : reads.flatten = x ++ payload) :
+    receive V2.parse isIncompleteV2 [] reads = some (.ok h) := by
+  obtain ⟨hself, hpre, -, hlen⟩ := V2.parse_header_self hp
+  obtain ⟨s, hs⟩ := hpre
+  apply receive_generic V2.parse isIncompleteV2 (x ++ payload) h.header.length (.ok h)
+  · rw [← hs]; simp only [List.length_append]; omega
+  · intro n hn
+    have : (x ++ payload).take n = x.take n := by
+      rw [List.take_append_of_le_length]; rw [← hs]; simp only [List.length_append]; omega
+    rw [this]; exact v2_prefix_incomplete hp n hn
+  · intro m hm
+    have : (x ++ payload).take m = h.header ++ ((s ++ payload).take (m - h.header.length)) := by
+      rw [← hs, List.append_assoc, List.take_append]
+      rw [List.take_of_length_le hm]
+    rw [this]
+    exact V2.parse_trailing hself _
+  · rfl
+  · simpa using hr
+  · simp only [List.length_nil]; omega
+
+/-- **v1 history form.** A receiver that re-parses its growing buffer ends with the
+same header as a one-shot parse, for every accepted US-ASCII line, every
+trailing payload and every split into reads. -/
+theorem streaming_v1 {x : B} {h : V1.Header} (hp : V1.parseBytes x = .ok h)
+    (hascii : ∀ c ∈ h.header, c < 0x80) (payload : B) (reads : List B)
+    (hr : reads.flatten = x ++ payload) :
+    receive V1.parseBytes isIncompleteV1 [] reads = some (.ok h) := by
+  obtain ⟨hself, hhdr, hpre, -⟩ := C04.v1_bytes_trailing hp payload
+  obtain ⟨s, hs⟩ := hpre
+  have h15 : 15 ≤ h.header.length := (C01.accepted_header_facts hp).2.2.2.1
+  apply receive_generic V1.parseBytes isIncompleteV1 (x ++ payload) h.header.length (.ok h)
+  · rw [← hs]; simp only [List.length_append]; omega
+  · intro n hn
+    have : (x ++ payload).take n = x.take n := by
+      rw [List.take_append_of_le_length]; rw [← hs]; simp only [List.length_append]; omega
+    rw [this]; exact v1_bytes_prefix_incomplete hp hascii n hn
+  · intro m hm
+    have : (x ++ payload).take m = h.header ++ ((s ++ payload).take (m - h.header.length)) := by
+      rw [← hs, List.append_assoc, List.take_append]
+      rw [List.take_of_length_le hm]
+    rw [this]
+    exact (C04.v1_bytes_trailing hhdr _).1
+  · rfl
+  · simpa using hr
+  · simp only [List.length_nil]; omega
+
+/-- Non-vacuity: `PROXY UNKNOWN\r\n` delivered as "PROXY UNK", "", "NOWN\r", "\nGET". -/
+example :
+    receive V1.parseBytes isIncompleteV1 []
+      [[0x50,0x52,0x4F,0x58,0x59,0x20,0x55,0x4E,0x4B], [], [0x4E,0x4F,0x57,0x4E,0x0D], [0x0A,0x47,0x45,0x54]] =
+    some (.ok ⟨[0x50,0x52,0x4F,0x58,0x59,0x20,0x55,0x4E,0x4B,0x4E,0x4F,0x57,0x4E,0x0D,0x0A], .unknown⟩) := by
+  decide
 
 end C05
